@@ -3,7 +3,7 @@ import itertools
 from . import ipgen, ipref, linegen, textgen
 from .textcommon import TEXT_MODEL_DEPS as MODEL_DEPS, TEXT_TRUSTED as TRUSTED_BASE, TEXT_ASSUMPTIONS as ASSUMPTIONS  # noqa
 
-COQ_DEPS = ["lib/Str.v", "lib/Rx.v", "lib/RxFacts.v", "lib/RxSub.v", "gen/G_rx.v", "gen/G_text_consts.v", "model/TextModel.v", "model/TextProofs.v"]
+COQ_DEPS = ["lib/Str.v", "lib/Rx.v", "lib/RxFacts.v", "lib/RxSub.v", "gen/G_rx.v", "gen/G_text_consts.v", "model/TextModel.v", "model/TextProofs.v", "model/TextProofs2.v", "lib/RxSubFacts.v"]
 RULE = ("texts of ordinary vocabulary with sensitive items at known positions (secrets from the template corpus, addresses, listed words and AS numbers), blank / whitespace-only lines, tabs, form feeds, CRLF, "
         "no final newline; all 32 feature subsets; oracle: line count, leading/trailing whitespace + terminator per line, non-sensitive tokens verbatim and in order, inner whitespace identical unless secrets/words are on, "
         "each output line equal to the output of the same line processed alone with the same earlier secrets; non-trivial = a distinct (line, feature subset) pair with at least one sensitive item")
